@@ -43,7 +43,7 @@ def run(patch):
                 pass
         ev = '/tmp/pm-ev-' + os.path.basename(wt)
         shutil.rmtree(ev, ignore_errors=True)
-        subprocess.run(['/verif/bin/lincheck', '-property', props, '-tier', 'quick', '-repo', wt, '-out', ev, '-known', '/verif/known_findings.json'], capture_output=True, env=env)
+        subprocess.run([os.environ.get('LINCHECK_BIN', '/verif/bin/lincheck'), '-property', props, '-tier', 'quick', '-repo', wt, '-out', ev, '-known', '/verif/known_findings.json'], capture_output=True, env=env)
         hits = {}
         for f in glob.glob(ev + '/C*.json'):
             e = json.load(open(f))
